@@ -264,6 +264,11 @@ class Intervals:
                 m = _mod_idiom(e[2], e[3])
                 if m is not None and a.lo >= 0:
                     return Ival(0, m - 1)
+                # a - min(a, x) >= 0
+                sb = _strip(e[3], fn)
+                if sb[0] == 'call' and sb[1].endswith('::min') and len(sb[2]) == 2 and \
+                        strip(e[2], fn) in (expr_str(sb[2][0]), expr_str(sb[2][1])):
+                    return Ival(0, a.hi, a.prop)
                 return Ival(a.lo - b.hi, a.hi - b.lo, a.prop)
             if op == 'Mul':
                 if p:
@@ -372,6 +377,12 @@ class Intervals:
             return ty_range(ty) if ty else Ival(0, INF)
         if ln in ('count_ones', 'leading_zeros', 'trailing_zeros'):
             return Ival(0, 64)
+        if ln in ('size_of', 'align_of') and len(e) > 3 and e[3]:
+            c = callee_of(e[3])
+            targ = (c or {}).get('args', ['?'])[0]
+            sz = {'u8': 1, 'i8': 1, 'u16': 2, 'i16': 2, 'u32': 4, 'i32': 4, 'u64': 8, 'i64': 8, 'usize': 8, 'isize': 8}.get(targ)
+            if sz:
+                return Ival(sz, sz)
         # local function: evaluate its return expression(s) with arguments substituted by intervals
         if len(e) > 3 and e[3]:
             c = callee_of(e[3])
